@@ -317,6 +317,14 @@ func (w *UnchunkWriter) nextPipe(forceNewMessage bool) error {
 	// Lock the readers channel so that it's not closed while waiting on the
 	// select
 	w.readerMu.Lock()
+	// Once closing has started the readers channel may already be closed. A
+	// send on it would be ready in the select below and would panic.
+	select {
+	case <-w.closing:
+		w.readerMu.Unlock()
+		return io.ErrClosedPipe
+	default:
+	}
 	// Send reader to ChunkerReader
 	select {
 	case <-w.closing:
